@@ -328,10 +328,10 @@ def unit_forms(unit, k):
     """documented input forms per system"""
     if unit.sys == 'ty': return forms(unit.timed, k)
     if unit.sys == 'qk': return forms(unit.timed, k)
-    if unit.sys == 'sh': return [(n, a, False) for n, a, h in forms(False, k)]
+    if unit.sys == 'sh': return [(n, a, False) for n, a, h in forms(unit.timed, k)]      # timed events also as m:ss.xx text
     if unit.sys == 'bg':
         if unit.timed: return forms(True, k)
-        return [f for f in forms(False, k, text=False)]
+        return [(n, a, False) for n, a, h in forms(False, k)]                            # field marks as text too
     if unit.sys == 'hu': return [f for f in forms(False, k, text=False)]
     raise ValueError(unit.sys)
 
@@ -402,8 +402,8 @@ def c05_forms(unit):
     # (not for Tyrving, where fewer decimals mean hand timing: compared separately below)
     if unit.sys == 'ty': return ['float', 'str2'] + (['m:ss.xx'] if unit.timed else [])
     if unit.sys == 'qk': return ['float', 'str2', 'strmin'] + (['m:ss.xx'] if unit.timed else [])
-    if unit.sys == 'sh': return ['str2', 'float', 'strmin']
-    if unit.sys == 'bg': return ['float', 'str2', 'm:ss.xx', 'strmin'] if unit.timed else ['float']
+    if unit.sys == 'sh': return ['str2', 'float', 'strmin'] + (['m:ss.xx'] if unit.timed else [])
+    if unit.sys == 'bg': return ['float', 'str2', 'm:ss.xx', 'strmin'] if unit.timed else ['float', 'str2', 'strmin']
     return ['float']
 
 
